@@ -163,6 +163,7 @@ def run(ctx):
     reset_flag_pairing(ctx, "R05-g")
     import c13
     c13.parse_errors_are_errors(ctx, "R05-h")
+    c13.registered_modules_come_from_their_file(ctx, "R05-i")
 
     # R05-f (shared) ----------------------------------------------------------------------------
     import c06
